@@ -275,6 +275,10 @@ impl<R: DynamicChannelRegion> RegionHandler for DynamicChannelPlan<R> {
             && let Some(mut channel) = self.channels[index as usize]
             && channel.frequency != 0
         {
+            if !freq_valid {
+                // The request is answered with a rejection: it must not change anything
+                return (false, true);
+            }
             channel.dl_frequency = if freq == channel.frequency {
                 // Reset downlink frequency
                 None
